@@ -167,3 +167,30 @@ def shutdown(proto, conn):
             t.join(2.0)
     except Exception:
         pass
+
+
+# ---------------------------------------------------------------------------------------------- SECS-I
+from secsgem.secsi.settings import SecsISettings
+
+
+class MemSecsISettings(SecsISettings):
+    def create_connection(self):
+        self.mem_connection = MemConnection(self)
+        return self.mem_connection
+
+
+def make_secsi(device_type=None, sync=False, **kw):
+    dt = device_type or secsgem.common.DeviceType.HOST
+    settings = MemSecsISettings(port="MEM", device_type=dt, **kw)
+    proto = settings.create_protocol()
+    conn = proto._connection
+    log = {"message_received": [], "events": []}
+
+    def on_msg(data):
+        m = data["message"]
+        log["message_received"].append((m.header.system, m.header.stream, m.header.function, m.header.require_response, bytes(m.data)))
+
+    proto.events.message_received += on_msg
+    if sync:
+        proto._thread = SyncDispatcher(proto)
+    return proto, conn, log
